@@ -144,21 +144,21 @@ func runC10(r *Run, p *Prog) {
 			lo, hi = NewPathCounter(p, isDone).Summary(entry)
 			r.Ob("S3", efn, "wg.Done() exactly once on every path", entry.Pos(), lo == 1 && hi == 1, fmt.Sprintf("between %d and %d calls: the serving call cannot drain (shutdown hangs) or panics", lo, hi))
 			// the release is deferred before anything that can fail: the first call-like instruction is the defer
-			var first ssa.Instruction
-			for _, in := range entry.Blocks[0].Instrs {
-				switch in.(type) {
-				case *ssa.Call, *ssa.Defer, *ssa.Go:
-					if first == nil {
-						first = in
-					}
-				}
-			}
-			d0, isDefer := first.(*ssa.Defer)
+			// (other defers may precede it: registering a deferred call cannot fail)
 			okFirst := false
-			if isDefer {
-				if t := staticTarget(&d0.Call); t != nil {
-					a, b := NewPathCounter(p, isDec).Summary(t)
-					okFirst = a == 1 && b == 1
+		scan:
+			for _, in := range entry.Blocks[0].Instrs {
+				switch x := in.(type) {
+				case *ssa.Defer:
+					if t := staticTarget(&x.Call); t != nil {
+						a, b := NewPathCounter(p, isDec).Summary(t)
+						if a == 1 && b == 1 {
+							okFirst = true
+							break scan
+						}
+					}
+				case *ssa.Call, *ssa.Go:
+					break scan
 				}
 			}
 			r.Ob("S3", efn, "the release is deferred as the handler's first action", entry.Pos(), okFirst,
